@@ -398,7 +398,10 @@ class UpdateCommand(BaseUpdateMixin, GematoCommand):
                     logging.error('Incremental specified but no '
                                   'timestamp in Manifest')
                     return 1
-                update_kwargs['last_mtime'] = last_ts.ts.timestamp()
+                # NB: TIMESTAMP is in UTC while .timestamp() on a naive
+                # datetime would interpret it as local time
+                update_kwargs['last_mtime'] = last_ts.ts.replace(
+                    tzinfo=datetime.timezone.utc).timestamp()
 
             logging.info(f'Updating Manifests in {p}...')
 
